@@ -589,6 +589,7 @@ def union(*args):
     class union_iterator:
         nested = nested_result
         num_args = len(args)
+        fibers = args
 
         def __iter__(self):
             for c, np in self.nested:
@@ -611,6 +612,17 @@ def union(*args):
                     p[0] = "A" + p[0]
 
                 p[1] = np
+
+                #
+                # An operand that is absent at this coordinate is
+                # represented by its own default payload (as in the
+                # two-operand union), not by the untyped placeholder of
+                # the nested lazy union
+                #
+                for i, fiber in enumerate(self.fibers):
+                    if chr(ord("A") + i) not in p[0]:
+                        p[i + 1] = fiber._createDefault(addtorank=False)
+
                 yield CoordPayload(c, tuple(p))
 
     fiber = args[0].fromIterator(union_iterator, active_range=args[0].getActive())
